@@ -29,8 +29,9 @@ RULE = ('per (listing, truncation to k result times): breadth-first search to cl
         'listing over the alphabet {first, last, next, prev, index=i for every i in [-k, k-1], time=t and step=s '
         'for every exact value, every midpoint of consecutive values and its two floating-point neighbours, one '
         'value below the first and one above the last, history(single item), history(one item in each of the first '
-        'two tables), history(one item per table)}; a state is (index and its Python type, time, step, digest of '
-        'every table, file offset, title); every (state, action) pair is one transition executed on the real '
+        'two tables), history(one item per table)}; a state is the whole reader object (a digest of every attribute '
+        'including which arrays are shared between attributes - hence index, time, step, all table data) plus the file '
+        'offset; every (state, action) pair is one transition executed on the real '
         'reader and compared with the index model and with a freshly opened listing positioned directly')
 ASSUMPTIONS = ['index= is explored for the arguments a Python sequence of k result sets accepts (-k..k-1); other '
                'arguments are outside the documented contract',
@@ -46,9 +47,10 @@ ASSUMPTIONS = ['index= is explored for the arguments a Python sequence of k resu
                'reader showing what it showed',
                'non-termination = more than 20 x lines x (result sets + 2) readline calls in one library call, or '
                'more than 4 x lines + 1000 consecutive reads at end of file']
-BOUNDS = {'quick': {'files': 'shipped listings with >= 2 result times and size < 300 kB, plus those < 500 kB that mix short and full result sets',
+BOUNDS = {'quick': {'state_cap': '20 x result times + 60 states per search (never reached on the unchanged tree)', 'files': 'shipped listings with >= 2 result times and size < 300 kB, plus those < 500 kB that mix short and full result sets',
                     'truncations': 'all k in 1..N for N <= 6, otherwise k in {1, 2, N}', 'depth': 'to closure'},
-          'thorough': {'files': 'all shipped listings with >= 2 result times',
+          'thorough': {'state_cap': '20 x result times + 60 states per search (never reached on the unchanged tree)',
+                       'files': 'all shipped listings with >= 2 result times',
                        'truncations': 'all k in 1..N for N <= 6, otherwise k in {1, 2, N-1, N}', 'depth': 'to closure'}}
 TECHNIQUE = ('explicit-state breadth-first search to closure over navigation call sequences on the real t2listing '
              'object, each transition compared with an index-arithmetic reference model and with a freshly opened '
@@ -61,6 +63,7 @@ LEVEL_NOTE = ('Trusted: ref/navmodel.py (result-set scan and nearest-index arith
 
 MAX_DEPTH = 40
 SHARD_TRANSITIONS = 2500
+STATE_CAP_PER_RESULT_SET = 20      # the unchanged tree has 6-8 states per result set
 SPEC = {'element': 'e', 'element1': 'e1', 'element2': 'e2', 'connection': 'c', 'primary': 'p', 'generation': 'g'}
 
 _pristine = listkit.Pristine()
@@ -300,7 +303,10 @@ def apply_op(st, op, judge=True):
         else:
             bad = [a[0] for a, b in zip(obs[3], ref[3]) if a != b]
             part = 'table-' + (bad[0] if bad else 'set')
-        out.append((base + 'shows-other-%s-than-fresh-listing' % part + tail,
+        # every cursor action funnels into the same index setter and table reader: one call site 'navigate'
+        # (and no argument class) for what the reader shows afterwards; 'history' is its own call site
+        site = 'history' if name == 'history' else 'navigate'
+        out.append(('C07|%s|shows-other-%s-than-fresh-listing|%s' % (site, part, sim),
                     'after %r the reader at index %d shows %s unlike a freshly opened listing with index = %d '
                     '(%s, %d result times; got %r, fresh %r)'
                     % (st.hist + [op], idx, part, idx, ctx.key, m.n, _brief(obs), _brief(ref))))
@@ -325,9 +331,12 @@ def make_step(confirm):
 
 def canon_of(st):
     lst = st.lst
+    # positions 2..5 (index, its type, time, step) are kept readable for the evidence samples; what makes two
+    # states the same is the digest of the whole object (every attribute and the aliasing between them) plus
+    # the file offset - not only the documented cursor fields (seeded change C07-b: a results cache whose
+    # entries alias the live table arrays is invisible in index/time/step/table digests/offset)
     return (st.ctx.key, st.ctx.k, int(lst._index), type(lst._index).__name__, repr(lst._time), repr(lst._step),
-            type(lst._time).__name__, type(lst._step).__name__,
-            listkit.observe(lst)[3], lst._file.tell(), lst.title)
+            listkit.full_state_digest(lst), lst._file.tell())
 
 
 def validate_state(st, c):
@@ -390,6 +399,7 @@ def search(rec, ctx, ops, shard, nshards, fresh):
     D only decides who does the work, never what is explored."""
     step = make_step(True)
     canon = canon_of
+    max_states = STATE_CAP_PER_RESULT_SET * ctx.model.n + 60
 
     def is_disc(hist, op):
         if op[0] == 'history':
@@ -450,6 +460,16 @@ def search(rec, ctx, ops, shard, nshards, fresh):
                     seen.add(k)
                     rec.state(k)
                     nxt.append((h2, pub and disc, k))
+                    if len(seen) > max_states:
+                        # far more states than a cursor over k result sets can have (6-8 per result set on the
+                        # unchanged tree): some hidden state grows with the history.  Stop, say so, never hang.
+                        rec.count('cap_hit')
+                        rec.notes.append('search %s shard %d/%d stopped at %d states (cap %d) at depth %d: not closed'
+                                         % (ctx.seed_name, shard, nshards, len(seen), max_states, depth + 1))
+                        rec.max_depth = max(rec.max_depth, depth + 1)
+                        rec.closed = False
+                        rec.outcomes['state-cap-hit'] += 1
+                        return seen, False
                     if mine and len(rec.samples) < rec.MAX_SAMPLES:
                         rec.sample({'seed': ctx.seed_name, 'ops': h2, 'reaches': list(canon_of(s2)[2:6])})
         depth += 1
@@ -518,7 +538,7 @@ def _run_unit(ctx, unit, tier, rec):
         rec.count('states_in_searches_of_%s' % ('truncated_copies' if ctx.path != ctx.src else 'whole_files'), len(seen))
     rec.count('shards', 1)
     rec.count('shards_closed', 1 if closed else 0)
-    if not closed:
+    if not closed and not rec.counters.get('cap_hit'):
         rec.count('cap_hit')
         rec.notes.append('search %s shard %d/%d not closed at depth %d' % (ctx.seed_name, shard, nshards, MAX_DEPTH))
 
